@@ -4,6 +4,7 @@ package keeper
 
 import (
 	"context"
+	"time"
 
 	sdk "github.com/cosmos/cosmos-sdk/types"
 
@@ -29,19 +30,70 @@ func runStep(req sdk.Msg, call func(k Keeper, ctx context.Context) error, hook f
 	zzinv.RunStep(authority, req, func(ctx context.Context) error { return call(k, ctx) }, nil, hook)
 }
 
+func govOnly(name string) func(s *zzinv.Step) {
+	return func(s *zzinv.Step) {
+		if s.Err == nil {
+			zz.Assert(zz.BytesEq(s.Signer, s.Authority), "C08 "+name+" succeeds only for the governance authority")
+		}
+	}
+}
+
+func blockTime() time.Time { return sdk.UnwrapSDKContext(zz.Context()).BlockTime() }
+
 func VerifHarness_Step_MarketSell() {
 	req := &types.MsgSell{}
-	runStep(req, func(k Keeper, ctx context.Context) error { _, err := k.Sell(ctx, req); return err }, nil)
+	runStep(req, func(k Keeper, ctx context.Context) error { _, err := k.Sell(ctx, req); return err },
+		func(s *zzinv.Step) {
+			if s.Err == nil {
+				for _, o := range req.Orders {
+					zz.Assert(zz.OrmExists0(zzinv.TAllowedDenom, o.AskPrice.Denom), "C06 Sell succeeds only with an ask denom on the allowed-denom list")
+					if o.Expiration != nil {
+						zz.Assert(zz.TimeLt(blockTime(), *o.Expiration), "C12 Sell accepts only an expiration strictly after block time")
+					}
+				}
+				// every created order belongs to the signer
+				zz.Assert(zz.AllWritten2(zzinv.TSellOrder, func(pre *marketapi.SellOrder, pe bool, post *marketapi.SellOrder, qe bool) bool {
+					return zz.And(zz.Not(pe), zz.And(qe, zz.BytesEq(post.Seller, s.Signer)))
+				}), "C08 Sell only creates orders owned by the signer")
+			}
+		})
 }
 
 func VerifHarness_Step_MarketUpdateSellOrders() {
 	req := &types.MsgUpdateSellOrders{}
-	runStep(req, func(k Keeper, ctx context.Context) error { _, err := k.UpdateSellOrders(ctx, req); return err }, nil)
+	runStep(req, func(k Keeper, ctx context.Context) error { _, err := k.UpdateSellOrders(ctx, req); return err },
+		func(s *zzinv.Step) {
+			if s.Err == nil {
+				for _, u := range req.Updates {
+					var so marketapi.SellOrder
+					found := zz.OrmRow0(zzinv.TSellOrder, &so, u.SellOrderId)
+					zz.Assert(zz.And(found, zz.BytesEq(so.Seller, s.Signer)), "C08 UpdateSellOrders succeeds only for the owner of each named order")
+					if u.NewAskPrice != nil {
+						zz.Assert(zz.OrmExists0(zzinv.TAllowedDenom, u.NewAskPrice.Denom), "C06 UpdateSellOrders accepts a new ask price only in an allowed denom")
+					}
+					if u.NewExpiration != nil {
+						zz.Assert(zz.TimeLt(blockTime(), *u.NewExpiration), "C12 UpdateSellOrders accepts only an expiration strictly after block time")
+					}
+				}
+				zz.Assert(zz.AllWritten2(zzinv.TSellOrder, func(pre *marketapi.SellOrder, pe bool, post *marketapi.SellOrder, qe bool) bool {
+					return zz.And(pe, zz.BytesEq(pre.Seller, s.Signer))
+				}), "C08 UpdateSellOrders writes only orders of the signer")
+			}
+		})
 }
 
 func VerifHarness_Step_MarketCancelSellOrder() {
 	req := &types.MsgCancelSellOrder{}
-	runStep(req, func(k Keeper, ctx context.Context) error { _, err := k.CancelSellOrder(ctx, req); return err }, nil)
+	runStep(req, func(k Keeper, ctx context.Context) error { _, err := k.CancelSellOrder(ctx, req); return err },
+		func(s *zzinv.Step) {
+			if s.Err == nil {
+				var so marketapi.SellOrder
+				found := zz.OrmRow0(zzinv.TSellOrder, &so, req.SellOrderId)
+				zz.Assert(zz.And(found, zz.BytesEq(so.Seller, s.Signer)), "C08 CancelSellOrder succeeds only for the owner of the order")
+				zz.Assert(zz.Not(zz.OrmExists1(zzinv.TSellOrder, req.SellOrderId)), "C06 a cancelled order no longer exists")
+				zz.Assert(zz.OrmWrites(zzinv.TSellOrder) == 1, "C08 CancelSellOrder touches only the named order")
+			}
+		})
 }
 
 func VerifHarness_Step_MarketBuyDirect() {
@@ -72,35 +124,71 @@ func VerifHarness_Step_MarketBuyDirect() {
 
 func VerifHarness_Step_MarketAddAllowedDenom() {
 	req := &types.MsgAddAllowedDenom{}
-	runStep(req, func(k Keeper, ctx context.Context) error { _, err := k.AddAllowedDenom(ctx, req); return err }, nil)
+	runStep(req, func(k Keeper, ctx context.Context) error { _, err := k.AddAllowedDenom(ctx, req); return err }, govOnly("AddAllowedDenom"))
 }
 
 func VerifHarness_Step_MarketRemoveAllowedDenom() {
 	req := &types.MsgRemoveAllowedDenom{}
-	runStep(req, func(k Keeper, ctx context.Context) error { _, err := k.RemoveAllowedDenom(ctx, req); return err }, nil)
+	runStep(req, func(k Keeper, ctx context.Context) error { _, err := k.RemoveAllowedDenom(ctx, req); return err }, govOnly("RemoveAllowedDenom"))
 }
 
 func VerifHarness_Step_MarketGovSetFeeParams() {
 	req := &types.MsgGovSetFeeParams{}
-	runStep(req, func(k Keeper, ctx context.Context) error { _, err := k.GovSetFeeParams(ctx, req); return err }, nil)
+	runStep(req, func(k Keeper, ctx context.Context) error { _, err := k.GovSetFeeParams(ctx, req); return err }, govOnly("GovSetFeeParams"))
 }
 
 func VerifHarness_Step_MarketGovSendFromFeePool() {
 	req := &types.MsgGovSendFromFeePool{}
-	runStep(req, func(k Keeper, ctx context.Context) error { _, err := k.GovSendFromFeePool(ctx, req); return err }, nil)
+	runStep(req, func(k Keeper, ctx context.Context) error { _, err := k.GovSendFromFeePool(ctx, req); return err }, govOnly("GovSendFromFeePool"))
 }
 
-// Begin-block processing: expired sell orders are pruned.
+// Begin-block processing: expired sell orders are pruned (C12, and the block-level parts
+// of C01..C06).
 func VerifHarness_Step_MarketPruneSellOrders() {
 	zzinv.Install()
 	k, _ := symKeeper()
 	sk := zzinv.PickSkolems()
+	order := zz.NondetU64("order*")
+	T := blockTime()
+	// block time is after the unix epoch (consensus)
+	zz.Assume(zz.TimeLt(time.Unix(0, 1), T))
 	zz.OrmBegin()
-	err := k.PruneSellOrders(zz.Context())
+	var err error
+	panicked := false
+	func() {
+		defer func() {
+			if r := recover(); r != nil {
+				panicked = true
+			}
+		}()
+		err = k.PruneSellOrders(zz.Context())
+	}()
+	zz.Assert(zz.Not(panicked), "C12 begin-block pruning never panics")
+	zz.Assert(err == nil, "C12 begin-block pruning never returns an error")
 	zzinv.CheckC01(sk.Batch)
 	zzinv.CheckC02(sk.Batch, zz.QInt(0))
 	zzinv.CheckC04(sk.Acct, sk.Batch)
-	zzinv.CheckC03(sk.Acct, sk.Batch, sk.Denom)
+	zzinv.CheckC05(sk.Basket)
+	zzinv.CheckC06(sk.Acct, sk.Batch)
+	zzinv.CheckC09()
+	zzinv.CheckRefs()
+	// C03: block-level processing only moves an account's own credits from escrow to tradable
+	da := zzinv.DeltaAccount(sk.Acct, sk.Batch)
+	zz.Assert(zz.QEq(zz.QAdd(da.Tradable, da.Escrowed), zz.QInt(0)), "C03 expiry leaves every account's tradable+escrowed total unchanged")
+	zz.Assert(zz.QLe(da.Escrowed, zz.QInt(0)), "C03 expiry only moves credits out of escrow")
+	zz.Assert(zz.QEq(da.Retired, zz.QInt(0)), "C03 expiry does not touch retired balances")
+	zz.Assert(zz.BankCalls() == 0, "C03 expiry moves no coins")
+	// C12: exactly the orders with 1ns <= expiration <= T disappear, all others are untouched
+	var o0, o1 marketapi.SellOrder
+	e0 := zz.OrmRow0(zzinv.TSellOrder, &o0, order)
+	e1 := zz.OrmRow1(zzinv.TSellOrder, &o1, order)
+	expired := false
+	if o0.Expiration != nil {
+		exp := o0.Expiration.AsTime()
+		expired = zz.And(zz.TimeLe(time.Unix(0, 1), exp), zz.TimeLe(exp, T))
+	}
+	zz.Assert(e1 == zz.And(e0, zz.Not(expired)), "C12 after pruning an order exists iff it existed and has no expiration at or before block time")
+	zz.Assert(zz.Implies(e1, zz.And(zz.StrEq(o0.Quantity, o1.Quantity), zz.And(o0.BatchKey == o1.BatchKey, zz.BytesEq(o0.Seller, o1.Seller)))), "C12 a surviving order is untouched")
 	if err == nil {
 		zz.Reach("prune succeeds")
 	}
